@@ -742,9 +742,16 @@ static Outcome eval_forked(const TapeSpec& spec, bool verbose, double timeout_s 
   }
   Outcome o;
   if (timed_out) {
+    // The run did not come back: the code under test hangs (every simulated blocking point is
+    // bounded by step budgets, so only a loop that makes no simulated call at all can do this).
+    // The limit is wall-clock, with a margin of several orders of magnitude over a normal run.
     o.kind = Outcome::TIMEOUT;
-    o.cls = "harness/watchdog";
-    o.msg = "evaluator exceeded wall-clock watchdog";
+    o.cls = "hang/no_return_within_watchdog";
+    o.key = std::string((const char*)g_eval_slot->context);
+    if (o.key.empty()) o.key = "no-context";
+    o.msg = strprintf("the run did not finish within %.0f s of wall-clock time (a normal run takes micro- to milliseconds); it was inside: %s", timeout_s, o.key.c_str());
+    o.hash = hash_cstr(o.cls.c_str()) ^ mix64(hash_cstr(o.key.c_str()));
+    o.tape.assign(g_eval_slot->tape, g_eval_slot->tape + g_eval_slot->tape_len);
   } else if (WIFEXITED(status) && WEXITSTATUS(status) == 0 && deserialize(buf, o)) {
     // ok
   } else if (WIFEXITED(status) && WEXITSTATUS(status) == 2) {
@@ -813,7 +820,7 @@ struct ShrinkStats {
 };
 
 static bool same_violation(const Outcome& o, const std::string& cls, const std::string& key) {
-  return (o.kind == Outcome::VIOLATION || o.kind == Outcome::CRASH) && o.cls == cls && o.key == key;
+  return (o.kind == Outcome::VIOLATION || o.kind == Outcome::CRASH || o.kind == Outcome::TIMEOUT) && o.cls == cls && o.key == key;
 }
 
 static std::vector<uint32_t> shrink_tape(std::vector<uint32_t> tape, const std::string& cls, const std::string& key,
@@ -1157,10 +1164,10 @@ int driver_main(int argc, char** argv, const Engine& e) {
     TapeSpec sp;
     sp.replay = true;
     sp.tape = tape;
-    Outcome o = eval_forked(sp, true);
+    Outcome o = eval_forked(sp, true, 10.0);
     printf("REPLAY-RESULT kind=%d class=%s key=%s hash=%016llx\n", (int)o.kind, o.cls.c_str(), o.key.c_str(), (unsigned long long)o.hash);
     for (auto& l : o.trace) printf("  | %s\n", l.c_str());
-    if (o.kind == Outcome::VIOLATION || o.kind == Outcome::CRASH) {
+    if (o.kind == Outcome::VIOLATION || o.kind == Outcome::CRASH || o.kind == Outcome::TIMEOUT) {
       printf("message: %s\n", o.msg.c_str());
       bool same = (o.cls == cls && o.key == key);
       printf("%s\n", same ? "reproduced: same violation class and key as recorded" : "reproduced a DIFFERENT violation than recorded");
@@ -1219,7 +1226,9 @@ int driver_main(int argc, char** argv, const Engine& e) {
       g_keep_events = false;
       Slot* s = g_slot;
       uint64_t n_in_proc = 0;
+      signal(SIGALRM, SIG_DFL);
       for (uint64_t idx = s->next_idx; idx < (uint64_t)runs; idx += workers) {
+        if ((n_in_proc & 31) == 0) alarm(25); // watchdog: 32 runs that take 25 s mean one of them hangs
         if ((n_in_proc++ & 15) == 0 && wall_now() - t0 > cap_s) {
           s->capped = 1;
           break;
@@ -1266,6 +1275,7 @@ int driver_main(int argc, char** argv, const Engine& e) {
   for (unsigned k = 0; k < workers; k++) spawn(k);
   unsigned alive = workers;
   uint64_t crash_count = 0;
+  bool storm = false;
   while (alive > 0) {
     int status = 0;
     pid_t pid = waitpid(-1, &status, 0);
@@ -1290,11 +1300,21 @@ int driver_main(int argc, char** argv, const Engine& e) {
     }
     // abnormal death: attribute to the announced run
     Slot* s = slots[k];
+    if (storm && WIFSIGNALED(status) && WTERMSIG(status) == SIGKILL) continue; // stopped by us
     crash_count++;
     uint64_t idx = s->cur_idx;
     cands.push_back({idx, "", "", true});
     s->next_idx = idx + workers;
     s->in_run = 0;
+    if (crash_count >= 16) {
+      // plenty of dying runs already: stop the batch, the candidates collected so far are judged
+      if (!storm) {
+        storm = true;
+        for (auto p : pids)
+          if (p > 0) kill(p, SIGKILL);
+      }
+      continue;
+    }
     if (restarts[k] < 200 && s->next_idx < (uint64_t)runs && wall_now() - t0 < cap_s) {
       restarts[k]++;
       spawn(k);
@@ -1359,26 +1379,23 @@ int driver_main(int argc, char** argv, const Engine& e) {
     return nullptr;
   };
   int crash_evals = 0;
+  int max_crash_evals = 24;
   bool harness_fault = false;
   std::string harness_fault_msg;
   for (auto& c : cands) {
     if (c.crash) {
-      if (crash_evals >= 40) continue;
+      if (crash_evals >= max_crash_evals) continue;
       crash_evals++;
       TapeSpec sp;
       sp.seed = seed;
       sp.idx = c.idx;
-      Outcome o = eval_forked(sp, true);
+      Outcome o = eval_forked(sp, true, 10.0);
       if (o.kind == Outcome::OK) {
         harness_fault = true;
         harness_fault_msg = strprintf("worker died during run %llu but a fresh evaluation of that run is clean", (unsigned long long)c.idx);
         continue;
       }
-      if (o.kind == Outcome::TIMEOUT) {
-        harness_fault = true;
-        harness_fault_msg = strprintf("run %llu hit the wall-clock watchdog", (unsigned long long)c.idx);
-        continue;
-      }
+      if (o.kind == Outcome::TIMEOUT) max_crash_evals = std::min(max_crash_evals, 3); // each hang costs the watchdog time
       c.cls = o.cls;
       c.key = o.key;
     }
@@ -1392,14 +1409,21 @@ int driver_main(int argc, char** argv, const Engine& e) {
 
   int unknown_violations = 0;
   int reported = 0;
+  int hang_groups = 0;
   std::vector<std::string> violation_lines, known_lines;
   for (auto& g : groups) {
     // gate: two fresh evaluations must agree with each other and with the worker's report
     TapeSpec sp;
     sp.seed = seed;
     sp.idx = g.idx;
-    Outcome o1 = eval_forked(sp, true);
-    Outcome o2 = eval_forked(sp, true);
+    bool is_hang = g.cls.rfind("hang/", 0) == 0;
+    if (is_hang && ++hang_groups > 2) {
+      // every confirmation of a hang costs the watchdog time; two fully processed groups are enough
+      unknown_violations++;
+      continue;
+    }
+    Outcome o1 = eval_forked(sp, true, 10.0);
+    Outcome o2 = is_hang ? o1 : eval_forked(sp, true, 10.0);
     if (!(same_violation(o1, g.cls, g.key) && same_violation(o2, g.cls, g.key) && o1.hash == o2.hash && o1.tape == o2.tape)) {
       harness_fault = true;
       harness_fault_msg = strprintf("determinism gate failed for run %llu: worker said %s [%s]; re-evaluations gave kind=%d %s [%s] hash=%016llx and kind=%d %s [%s] hash=%016llx",
@@ -1421,13 +1445,13 @@ int driver_main(int argc, char** argv, const Engine& e) {
     ShrinkStats st;
     std::vector<uint32_t> tape = o1.tape;
     size_t original_len = tape.size();
-    if (!no_shrink && reported <= 3) {
+    if (!no_shrink && reported <= 3 && !is_hang) {
       tape = shrink_tape(tape, g.cls, g.key, 1500, 25.0, st);
     }
     TapeSpec rp;
     rp.replay = true;
     rp.tape = tape;
-    Outcome fin = eval_forked(rp, true);
+    Outcome fin = is_hang ? o1 : eval_forked(rp, true, 10.0);
     if (!same_violation(fin, g.cls, g.key)) {
       // shrinking must preserve the violation; fall back to the original tape
       rp.tape = o1.tape;
